@@ -24,6 +24,8 @@ TEXT = {
          "Round trip, monotonicity, derivatives of the transforms; wrapped functions with analytic derivatives checked for value, feasibility of the back-transformed point, chain rule, parameters right after wrapping, placebo pass-through; exhaustive lattice of the ten configurations x bounds x start positions x wrapper kinds. Exploration."),
  "C12": ("stateful generated update histories on polynomial functions with analytic derivatives; exhaustive configuration lattice; step-halving metamorphic law",
          "Transparency (bitwise parameters, value) after every update through all six entry points; derivatives vs analytic ones within rounding/truncation bounds by stencil class; convergence order by halving the step; delegation for non-selected variables. Exploration."),
+ "C16": ("coverage-guided fuzzing (libFuzzer, ASan+UBSan) of 14 entry-point groups with structure-aware decoding, dictionary, seeds and in-target semantic oracles",
+         "One libFuzzer target per group of parsing entry points; bytes are decoded into option flags / characters and subject strings; bpp::Exception is a clean rejection, any other exception type, sanitizer report, division trap, malloc/rss limit or confirmed timeout is a violation; cheap semantic oracles (token/cursor consistency, table shape, split re-concatenation) run inside the targets. Exploration: ~1e5 executions per target in the quick tier, ~5e7 in the thorough tier."),
  "C19": ("rapidcheck-generated parameter / probability vectors vs long-double definitions of the three codings; exhaustive dyadic lattice for n<=7",
          "Forward law (non-negative, sums to one, product formula), inverse law with a conditioning-aware bound, left-inverse / separation for injectivity, copy independence, ordered variant; exhaustive over dyadic parameter lattices for dimensions 1..7. Exploration."),
  "C20": ("stateful model-based testing against a bitset + component-list model; bounded-exhaustive enumeration of all operation sequences (length 2 quick / 3 thorough over a 0..6 universe) for four coordinate types",
